@@ -643,6 +643,12 @@ class Repo(object):
                 return ExternalRef(e.id)
             return v
         if isinstance(e, ast.Attribute):
+            if cls is not None and isinstance(e.value, ast.Name) and e.value.id in ('self', 'cls') and e.value.id not in env:
+                # class-level constant read through the instance (self.MAX_HASH_FUNCS)
+                r_ = self.lookup_class_attr(cls, e.attr)
+                if r_ is not None:
+                    return self.fold(r_[1], r_[0].module, cls=r_[0])
+                return UNKNOWN
             base = f(e.value)
             return self.attr_value(base, e.attr, cls)
         if isinstance(e, ast.Tuple):
